@@ -45,8 +45,9 @@ CLAIMED = {
             "loop for get/traverse converges to the complete-store result asking only for missing path nodes, each once (C07_retry_get); "
             "set/delete over a sub-store give the same result and root as over the complete store or an atomic MissingTrieNode for a node "
             "absent here and present there (C07_same_or_missing_set/delete) and their retry loop converges, each node asked once, on "
-            "non-pruning tries (C07_retry_set/delete). Pruning tries: three-outcome theorem C07_write_outcomes_*; the retry loop with "
-            "prune=True is checked by the harness loop.",
+            "non-pruning tries (C07_retry_set/delete). Pruning tries: after any history from the empty pruning trie and for every sub-store "
+            "of its exact database, a write is the complete-store outcome or the atomic report (never ValidationError) and the retry loop "
+            "converges (C07_prune_history); over arbitrary store pairs only the three-outcome theorem C07_write_outcomes_* holds.",
             "Coq proof + vm_compute correspondence over every single-node and random-subset removal", "5/C07", ""),
     "C08": ("Theorems (tree level, every canonical trie, every path): blank iff no key below; the node at a path is the canonical sub-trie; what "
             "a caller sees (incl. simulated nodes) is the annotation of THE canonical node for the keys below; partial-path fields; "
